@@ -92,7 +92,9 @@ def cell_xml(coord, spec, sst):
         return '<c r="%s" t="e"><v>%s</v></c>' % (coord, escape(spec['v']))
     t, v = _v(spec.get('ct'), spec.get('cv'))
     if form == 'f':
-        return '<c r="%s"%s><f>%s</f>%s</c>' % (coord, t, escape(spec['f']), v)
+        style = ' s="%d"' % spec['style'] if spec.get('style') else ''
+        return '<c r="%s"%s%s><f>%s</f>%s</c>' % (coord, style, t,
+                                                   escape(spec['f']), v)
     if form == 'shared-master':
         return ('<c r="%s"%s><f t="shared" ref="%s" si="%d">%s</f>%s</c>'
                 % (coord, t, spec['ref'], spec['si'], escape(spec['f']), v))
@@ -119,18 +121,21 @@ def sheet_xml(cells, sst):
     return ''.join(parts)
 
 
-def build(sheets, names=None):
-    """sheets: list of (title, {coord: cellspec}); names: {name: target text}.
-    Returns the .xlsx file content as bytes."""
+def build(sheets, names=None, date1904=False, hidden=()):
+    """sheets: list of (title, {coord: cellspec}); names: {name: target text};
+    date1904: the workbook uses the 1904 date system; hidden: titles of sheets
+    with state="hidden".  Returns the .xlsx file content as bytes."""
     sst = {}
     sheet_parts = [sheet_xml(cells, sst) for _, cells in sheets]
     wb = ['<?xml version="1.0" encoding="UTF-8" standalone="yes"?>\n'
           '<workbook xmlns="http://schemas.openxmlformats.org/spreadsheetml/'
           '2006/main" xmlns:r="http://schemas.openxmlformats.org/'
-          'officeDocument/2006/relationships"><sheets>']
+          'officeDocument/2006/relationships">%s<sheets>'
+          % ('<workbookPr date1904="1"/>' if date1904 else '')]
     for i, (title, _) in enumerate(sheets, 1):
-        wb.append('<sheet name="%s" sheetId="%d" r:id="rId%d"/>'
-                  % (escape(title, {'"': '&quot;'}), i, i))
+        wb.append('<sheet name="%s" sheetId="%d"%s r:id="rId%d"/>'
+                  % (escape(title, {'"': '&quot;'}), i,
+                     ' state="hidden"' if title in hidden else '', i))
     wb.append('</sheets>')
     if names:
         wb.append('<definedNames>')
